@@ -572,50 +572,85 @@ def attribute_ub(st, text, plan, is_prog):
     return [SIG_WRAP, SIG_ALIAS]
 
 
-def nan_sign_only(st, text, plan):
-    """True when, on every input of the plan, all engines return the same value and call log and their
-    buffers differ from MIR_interp's only in the sign bit of 8-byte slots holding a NaN in both (x86
-    arithmetic yields the negative default NaN, gcc's constant folder the positive one: not an
-    observable difference of MIR semantics)"""
-    rc, lines, err = st.engine(text, plan, "nanq", quiet=False)
-    res, errs = progtie.parse(lines)
-    if rc != 0 or errs or not res:
+def _isnan64(w):
+    return (w >> 52) & 0x7ff == 0x7ff and (w & ((1 << 52) - 1)) != 0
+
+
+def _mem_equal_mod_nan(a, b):
+    """buffer dumps equal except for the sign bit of 8-byte slots (relative to the buffer start, offset 32
+    of the dump) that hold a NaN in both"""
+    if a == b:
+        return True
+    if len(a) != len(b):
         return False
-    for r in res:
-        if r["same"]:
+    for off in range(len(a) // 2):
+        if a[2 * off:2 * off + 2] == b[2 * off:2 * off + 2]:
             continue
-        vals = [x.rstrip("*") for x in r["results"]]
-        if any(v != vals[0] or v.startswith("!") for v in vals):
+        slot = 32 + ((off - 32) // 8) * 8
+        wa = int.from_bytes(bytes.fromhex(a[2 * slot:2 * slot + 16]), "little")
+        wb = int.from_bytes(bytes.fromhex(b[2 * slot:2 * slot + 16]), "little")
+        if not (_isnan64(wa) and _isnan64(wb) and (wa ^ wb) == 1 << 63):
             return False
-    mem, log = {}, {}
+    return True
+
+
+def _log_canon(entries):
+    """call-log entries `id:a,b,c,d`; extd (id 5) logs the bits of its double argument: NaN sign dropped"""
+    out = []
+    for e in entries:
+        i, _, rest = e.partition(":")
+        f = rest.split(",")
+        if i == "5" and f and _isnan64(int(f[0], 16)):
+            f[0] = "nan"
+        out.append(i + ":" + ",".join(f))
+    return out
+
+
+def observe(st, text, plan, engs):
+    """run one program on all engines (not quiet) -> list of per-input dicts eng -> (value, log, mem); an engine
+    the harness printed no M/L line for observed exactly what MIR_interp observed"""
+    rc, lines, err = st.engine(text, plan, "obs", engs=engs, quiet=False)
+    errs = [l for l in lines if l.startswith("E ")]
+    if rc != 0 or errs:
+        return None, (errs + [err[-200:]])[0]
+    recs, cur = [], None
     for l in lines:
         t = l.split()
-        if l.startswith("M ") and len(t) >= 4:
-            mem.setdefault(t[1], {}).setdefault(t[2], []).append(t[3])
-        if l.startswith("L "):
-            log.setdefault(t[1], {}).setdefault(t[2], []).append(" ".join(t[3:]))
-    for fn, per in mem.items():
-        ref = per.get("interp")
-        if not ref:
-            return False
-        for eng, dumps in per.items():
-            if eng == "interp":
+        if l.startswith("P "):
+            right = l.split(" | ")[1].split()
+            if right[0].startswith("="):
+                vals = [right[0][1:]] * len(engs)
+            else:
+                vals = [x.rstrip("*") for x in right]
+            cur = {"vals": dict(zip(engs, vals)), "mem": {}, "log": {}}
+            recs.append(cur)
+        elif l.startswith("M ") and cur is not None and len(t) >= 4:
+            cur["mem"][t[2]] = t[3]
+        elif l.startswith("L ") and cur is not None and len(t) >= 3:
+            cur["log"][t[2]] = t[3:]
+    return recs, None
+
+
+def engine_verdicts(recs, engs):
+    """per engine: 'same' | 'nan-sign' (differs only by the sign of NaNs stored/logged) | 'differs'"""
+    out = {}
+    for e in engs[1:]:
+        v = "same"
+        for r in recs:
+            if r["vals"][e] != r["vals"]["interp"]:
+                v = "differs"
+                break
+            rm, em = r["mem"].get("interp"), r["mem"].get(e)
+            rl, el = r["log"].get("interp"), r["log"].get(e)
+            if em is None and el is None:
                 continue
-            if log.get(fn, {}).get(eng) != log.get(fn, {}).get("interp") or len(dumps) != len(ref):
-                return False
-            for a, b in zip(ref, dumps):
-                if len(a) != len(b):
-                    return False
-                for off in range(0, len(a) // 2):
-                    if a[2 * off:2 * off + 2] == b[2 * off:2 * off + 2]:
-                        continue
-                    slot = 32 + ((off - 32) // 8) * 8
-                    wa = int.from_bytes(bytes.fromhex(a[2 * slot:2 * slot + 16]), "little")
-                    wb = int.from_bytes(bytes.fromhex(b[2 * slot:2 * slot + 16]), "little")
-                    isnan = lambda w: (w >> 52) & 0x7ff == 0x7ff and (w & ((1 << 52) - 1)) != 0
-                    if not (isnan(wa) and isnan(wb) and (wa ^ wb) == 1 << 63):
-                        return False
-    return True
+            if _log_canon(el or []) != _log_canon(rl or []) or not _mem_equal_mod_nan(rm or "", em or ""):
+                v = "differs"
+                break
+            if em != rm or el != rl:
+                v = "nan-sign"
+        out[e] = v
+    return out
 
 
 # ------------------------------------------------------------------------------------------------ stage B
@@ -654,64 +689,67 @@ def stage_programs(ck, st, nprogs, per_batch, viol, known_present):
             fl, n = f.result()
             fails += fl
             nev += n
-    classes = collections.OrderedDict()
-    ub_counts = {}
+    # every failing program is re-run alone on six builds and judged per engine
+    byprog = collections.OrderedDict()
     for f in fails:
-        if f["kind"] == "engine-abort":
-            key = ("abort", str(f["results"])[:60])
-        else:
-            pat = tuple(r.endswith("*") or r.startswith("!") for r in f["results"])
-            key = ("differ", pat)
-        classes.setdefault(key, []).append(f)
-    n_wrap = 0
-    n_nan = 0
-    # differences that are only the sign of a NaN stored into the buffer are not differences
-    for key in list(classes):
-        if key[0] != "differ":
-            continue
-        keep = []
-        for f in classes[key]:
-            vals = [x.rstrip("*") for x in f["results"]]
-            if all(v == vals[0] for v in vals) and f["args"] and \
-                    nan_sign_only(st, f["prog"].text(), "prog " + f["entry"] + " " + " ".join(f["args"]) + "\n"):
-                n_nan += 1
-            else:
-                keep.append(f)
-        if keep:
-            classes[key] = keep
-        else:
-            del classes[key]
-    for key, fl in classes.items():
+        byprog.setdefault(f["entry"], []).append(f)
+    ALL = ["interp", "O0", "O2", "O2w", "O2v", "O2a"]
+    ub_counts, n_nan, n_wrap = {}, 0, 0
+    classes = collections.OrderedDict()
+
+    def judge(entry):
+        fl = byprog[entry]
         f = fl[0]
         text = f["prog"].text()
-        plan = progtie.plan_for([f["entry"]], mirgen.ARGSETS) if not f["args"] else "prog " + f["entry"] + " " + " ".join(f["args"]) + "\n"
-        sig, sigs = None, []
-        if key[0] == "differ" and key[1] == (False, False, True, False):
-            # only the build without -fwrapv/-fno-strict-aliasing at -O2 differs: which of the two options repairs it?
-            sigs = attribute_ub(st, text, plan, True)
-            if sigs:
-                sig = sigs[0]
-                n_wrap += len({f_['entry'] for f_ in fl})
-                for s_ in sigs:
-                    ub_counts[s_] = ub_counts.get(s_, 0) + len({f_['entry'] for f_ in fl})
+        plan = progtie.plan_for([entry], mirgen.ARGSETS)
+        if f["kind"] == "engine-abort":
+            return entry, "abort", None, text, plan
+        recs, e = observe(st, text, plan, ALL)
+        if recs is None:
+            return entry, "abort", e, text, plan
+        return entry, "judged", engine_verdicts(recs, ALL), text, plan
+    with ThreadPoolExecutor(max_workers=8) as ex:
+        judged = list(ex.map(judge, list(byprog)))
+    for entry, how, verd, text, plan in judged:
+        f = byprog[entry][0]
+        sigs = []
+        if how == "judged":
+            if verd["O0"] != "differs" and verd["O2w"] != "differs":
+                if verd["O2"] == "differs":
+                    # only the optimised build without -fwrapv -fno-strict-aliasing differs: which option repairs it?
+                    v_ok, a_ok = verd["O2v"] != "differs", verd["O2a"] != "differs"
+                    sigs = [SIG_WRAP] if v_ok and not a_ok else [SIG_ALIAS] if a_ok and not v_ok else [SIG_WRAP, SIG_ALIAS]
+                    n_wrap += 1
+                    for s_ in sigs:
+                        ub_counts[s_] = ub_counts.get(s_, 0) + 1
+                else:
+                    n_nan += 1     # nothing but NaN signs
+                    continue
+            key = ("ub", tuple(sigs)) if sigs else ("differ", tuple(sorted(verd.items())))
+        else:
+            key = ("abort", str(verd or f["results"])[:60])
+        classes.setdefault(key, []).append((f, text, plan, verd, sigs))
+    for key, lst in classes.items():
+        f, text, plan, verd, sigs = lst[0]
         rep = {"stage": "programs", "kind": f["kind"], "entry": f["entry"], "plan": plan, "engines": ENGS,
-               "results_per_engine": f["results"], "same_class_count": len(fl), "how_to_rerun": "./check C20 --replay <this file>"}
-        if sig is None:
+               "results_per_engine": f["results"], "verdict_per_build": verd, "same_class_count": len(lst),
+               "how_to_rerun": "./check C20 --replay <this file>"}
+        if not sigs:
             try:
-                text = progtie.shrink_text(ENGINE, ENGS, text, plan, f["entry"], st.work, kind=f["kind"], budget=40)
+                text = progtie.shrink_text(ENGINE, ["interp", "O0", "O2w"], text, plan, f["entry"], st.work, kind=f["kind"], budget=40)
             except Exception as ex:
                 ck.log("shrink failed:", ex)
         rep["mir"] = text
-        rep["case"] = {"kind": "prog", "mir": text, "plan": plan, "engines": ENGS}
-        for extra in sigs[1:]:
-            viol.append(("program:" + extra, dict(rep, signature=extra, what="(same program) " + extra)))
-        viol.append(("program:" + (sig or "unlisted"), dict(rep, signature=sig,
-                     what=(f"compiled translation and MIR_interp disagree on a well-defined program ({f['entry']}): " +
-                           " ".join(f"{e}={r}" for e, r in zip(ENGS, f["results"])))[:400] if f["kind"] == "engines-differ"
-                     else f"translation pipeline aborted on a well-defined program: {str(f['results'])[:240]}")))
+        rep["case"] = {"kind": "prog", "mir": text, "plan": plan, "engines": ENGS if sigs else ["interp", "O0", "O2w"]}
+        what = ((f"compiled translation and MIR_interp disagree on a well-defined program ({f['entry']}): per build {verd}; "
+                 + " ".join(f"{e}={r}" for e, r in zip(ENGS, f["results"])))[:400] if f["kind"] == "engines-differ"
+                else f"translation pipeline aborted on a well-defined program: {str(verd or f['results'])[:240]}")
+        for sg in (sigs or [None]):
+            viol.append(("program:" + (sg or "unlisted"), dict(rep, signature=sg, what=what)))
     return {"programs": nprogs, "evaluations": nev * len(ENGS), "constructs": stats, "rewritten_known_defect_insns": nrew,
-            "failure_classes": len(classes), "programs_where_only_the_O2_build_without_fwrapv_fno_strict_aliasing_differs": n_wrap,
-            "of_these_repaired_by": ub_counts, "evaluations_differing_only_in_the_sign_of_a_stored_NaN": n_nan, "options": opts}
+            "failing_programs": len(byprog), "failure_classes": len(classes),
+            "programs_where_only_the_O2_build_without_fwrapv_fno_strict_aliasing_differs": n_wrap,
+            "of_these_repaired_by": ub_counts, "programs_differing_only_in_the_sign_of_stored_NaNs": n_nan, "options": opts}
 
 
 # ------------------------------------------------------------------------------------------------ stage C
